@@ -86,7 +86,7 @@ impl Prop for C03Prop {
         vec!["DontCare inputs (literal-literal adjacency, literals the type cannot hold, deg/rad followed by ^, superscript or !) are counted and not asserted".into()]
     }
     fn subs(&self, tier: Tier) -> Vec<Sub> {
-        let mut v: Vec<Sub> = c01::C01.subs(tier).into_iter().filter(|s| ["tokens3", "classreps", "chars", "keywords"].contains(&s.name)).collect();
+        let mut v: Vec<Sub> = c01::C01.subs(tier).into_iter().filter(|s| ["tokens3", "classreps", "chars", "keywords", "arity"].contains(&s.name)).collect();
         v.push(Sub { name: "long", kind: SubKind::Enum { count: super::long::all(true).len() as u64 } });
         v.push(Sub { name: "mutant", kind: SubKind::Random { cases: tier.pick(600_000, 30_000_000), len: 160 } });
         v.push(Sub { name: "wellformed", kind: SubKind::Random { cases: tier.pick(400_000, 20_000_000), len: 160 } });
